@@ -218,6 +218,50 @@ func buildCases(tier string) []caseT {
 			st(fmt.Sprintf("ftime:%s:%s", strings.Repeat("+@ltime@", k), strings.Repeat("-@ftime@", m)))
 		}
 	}
+	// boundary values of the value sub-parsers: host masks (prefix / trailing-bit suffixes around the
+	// address widths), numbers around the field widths, times and durations around their ranges;
+	// every value alone, as range ends and in lists
+	{
+		vb := add("value sub-parser boundaries", true)
+		bits := []string{"-200", "-129", "-128", "-127", "-65", "-64", "-63", "-33", "-32", "-31", "-17", "-16", "-9", "-8", "-1", "0", "1", "7", "8", "16", "31", "32", "33", "63", "64", "65", "127", "128", "129", "200", "x", "", "+5", "99999999999999999999", "-99999999999999999999"}
+		addrs := []string{"1.2.3.4", "::1", "fe80::1", "255.255.255.255", "@chost@", "@x:shost@", "1.2.3", "::ffff:1.2.3.4"}
+		for _, key := range []string{"host", "chost", "shost"} {
+			for _, a := range addrs {
+				for _, b1 := range bits {
+					vb(key + ":" + a + "/" + b1)
+					vb("@x:" + key + ":" + a + "/" + b1)
+					for _, b2 := range bits {
+						vb(key + ":" + a + "/" + b1 + "/" + b2)
+					}
+				}
+			}
+		}
+		nums := []string{"0", "1", "-1", "255", "256", "65535", "65536", "4294967295", "4294967296", "9223372036854775807", "9223372036854775808", "18446744073709551615", "18446744073709551616", "-9223372036854775808", "-9223372036854775809", "1e3", "0x10", "007", "+1", "1.5", "@id@", "@id@+18446744073709551615", "@x:cport@-65536"}
+		for _, key := range []string{"id", "cport", "sport", "port", "cbytes", "sbytes", "bytes", "limit"} {
+			for _, a := range nums {
+				vb(key + ":" + a)
+				vb("-" + key + ":" + a)
+				vb(key + ":" + a + ":")
+				vb(key + "::" + a)
+				for _, b := range nums {
+					vb(key + ":" + a + ":" + b)
+					vb(key + ":" + a + "," + b)
+				}
+			}
+		}
+		times := []string{"0", "1200", "2359", "2360", "2400", "9999", "12000", "-0", "-5m", "+5m", "-1h1m1s", "-1.5h", "-99999999999h", "-9223372036854775807ns", "1h", "\"2020-01-01 1200\"", "\"2020-13-01 1200\"", "\"2020-02-30 0000\"", "\"0000-01-01 0000\"", "\"9999-12-31 2359\"", "\"2020-01-01\"", "@ltime@", "@ltime@+99999999999h", "@x:ftime@-1ns", "\"@ftime@+1h\"", "1200+1h", "x"}
+		for _, key := range []string{"ftime", "ltime", "time"} {
+			for _, a := range times {
+				vb(key + ":" + a)
+				vb("-" + key + ":" + a)
+				vb(key + ":" + a + ":")
+				vb(key + "::" + a)
+				for _, b := range times {
+					vb(key + ":" + a + ":" + b)
+				}
+			}
+		}
+	}
 	// long lists, deep nesting
 	ids := make([]string, 1000)
 	for i := range ids {
